@@ -85,6 +85,9 @@ type World struct {
 
 	steps int
 	halt  bool
+	// clientCloses: connections the client itself closed (whatever was in
+	// flight on them is lost).
+	clientCloses int
 
 	// Yield points (hook H7): the block manager's goroutines call yieldHook
 	// between two steps of one chain change. An armed plan parks the
@@ -394,6 +397,7 @@ func (w *World) collect() {
 		if closed && !c.seenClosed {
 			c.seenClosed = true
 			w.rc.Logf("t=%s client closed connection to %s", w.clock(), p.addr.IP)
+			w.clientCloses++
 		}
 	}
 }
